@@ -29,3 +29,4 @@ def run(chk):
     twins.rule_token_agreement(chk, P, 'K1', floor=150)
     from . import padding
     padding.rule_sha_padding(chk, P)
+    padding.rule_digest_words(chk, P, 'P5')
